@@ -2,7 +2,7 @@
 EXTENDS Gen_Sketch
 RSlots == 1..2
 RTokens == {10, 15, -11, 0}
-RWeights == {6, 132}
+RWeights == {2, 6, 132}
 RFactors == {<<2, 1>>}
 ROps == {"Add", "AddW", "EncDec", "DecodeNew", "Concat"}
 RInit == (1 :> NewSketch("plain", 1, "exact", 0, "exact", 0)) @@ (2 :> NewSketch("plain", 1, "exact", 0, "exact", 0))
